@@ -34,6 +34,8 @@ def Expr.noLayoutE : Expr → Prop
   | .lam _ _ _ _ _ b a => noLayout b ∧ noLayout a
   | .un _ _ _ _ b a => noLayout b ∧ noLayout a
   | .bin _ _ _ _ _ b a => noLayout b ∧ noLayout a
+  | .ite _ _ _ _ _ _ _ _ _ _ _ _ _ _ b a => noLayout b ∧ noLayout a
+  | .has _ _ _ _ _ _ b a => noLayout b ∧ noLayout a
 def allNoLayout : List Expr → Prop
   | [] => True
   | e :: rest => e.noLayoutE ∧ allNoLayout rest
@@ -69,6 +71,8 @@ theorem noLayoutE_before {e : Expr} (h : e.noLayoutE) : noLayout e.before := by
   | lam n c g k bd b a => exact h.1
   | un o e g bt b a => exact h.1
   | bin o l r x y b a => exact h.1
+  | ite c t e cg aic aig btc btg atc tg bec beg aec eg b a => exact h.1
+  | has e ats lg rg bq aq b a => exact h.1
 theorem noLayoutE_after {e : Expr} (h : e.noLayoutE) : noLayout e.after := by
   cases e with
   | leaf k t b a => exact h.2
@@ -84,6 +88,8 @@ theorem noLayoutE_after {e : Expr} (h : e.noLayoutE) : noLayout e.after := by
   | lam n c g k bd b a => exact h.2
   | un o e g bt b a => exact h.2
   | bin o l r x y b a => exact h.2
+  | ite c t e cg aic aig btc btg atc tg bec beg aec eg b a => exact h.2
+  | has e ats lg rg bq aq b a => exact h.2
 theorem noLayoutE_setBefore {e : Expr} (h : e.noLayoutE) {b : List Trivia} (hb : noLayout b) : (e.setBefore b).noLayoutE := by
   cases e with
   | leaf k t b' a => exact ⟨hb, h.2⟩
@@ -99,6 +105,8 @@ theorem noLayoutE_setBefore {e : Expr} (h : e.noLayoutE) {b : List Trivia} (hb :
   | lam n c g k bd b' a => exact ⟨hb, h.2⟩
   | un o e g bt b' a => exact ⟨hb, h.2⟩
   | bin o l r x y b' a => exact ⟨hb, h.2⟩
+  | ite c t e cg aic aig btc btg atc tg bec beg aec eg b' a => exact ⟨hb, h.2⟩
+  | has e ats lg rg bq aq b' a => exact ⟨hb, h.2⟩
 theorem noLayoutE_addAfter {e : Expr} (h : e.noLayoutE) {a : List Trivia} (ha : noLayout a) : (e.addAfter a).noLayoutE := by
   have haa := noLayout_append.mpr ⟨noLayoutE_after h, ha⟩
   cases e with
@@ -115,6 +123,8 @@ theorem noLayoutE_addAfter {e : Expr} (h : e.noLayoutE) {a : List Trivia} (ha : 
   | lam n c g k bd b a' => exact ⟨h.1, haa⟩
   | un o e g bt b a' => exact ⟨h.1, haa⟩
   | bin o l r x y b a' => exact ⟨h.1, haa⟩
+  | ite c t e cg aic aig btc btg atc tg bec beg aec eg b a' => exact ⟨h.1, haa⟩
+  | has e ats lg rg bq aq b a' => exact ⟨h.1, haa⟩
 
 theorem allNoLayout_append : ∀ {a b : List Expr}, allNoLayout a → allNoLayout b → allNoLayout (a ++ b)
   | [], _, _, hb => hb
@@ -301,6 +311,8 @@ theorem cst_noLayout : (c : Cst) → c.wf = true → containsNL c.flatten = fals
     | lam nn cc g' kk bd b' a' => simp only [Expr.before] at heb; simp only [Expr.after] at hea; subst heb; subst hea; exact ⟨noLayout_nil, noLayout_nil⟩
     | un oo ee g' bt b' a' => simp only [Expr.before] at heb; simp only [Expr.after] at hea; subst heb; subst hea; exact ⟨noLayout_nil, noLayout_nil⟩
     | bin oo ll rr xx yy b' a' => simp only [Expr.before] at heb; simp only [Expr.after] at hea; subst heb; subst hea; exact ⟨noLayout_nil, noLayout_nil⟩
+    | ite cc tt ee2 cg aic aig btc btg atc tg bec beg aec eg b' a' => simp only [Expr.before] at heb; simp only [Expr.after] at hea; subst heb; subst hea; exact ⟨noLayout_nil, noLayout_nil⟩
+    | has ee2 ats lg rg bq aq b' a' => simp only [Expr.before] at heb; simp only [Expr.after] at hea; subst heb; subst hea; exact ⟨noLayout_nil, noLayout_nil⟩
     | list v m inn b' a' => simp only [Cst.parse] at hp; (repeat' split at hp) <;> first | cases hp | (injection hp with hp; (try split at hp) <;> cases hp)
     | set v m r inn b' a' => simp only [Cst.parse] at hp; (repeat' split at hp) <;> first | cases hp | (injection hp with hp; (try split at hp) <;> cases hp)
     | binding n v g' b' a' => simp only [Cst.parse] at hp; (repeat' split at hp) <;> first | cases hp | (injection hp with hp; (try split at hp) <;> cases hp)
@@ -337,6 +349,24 @@ theorem cst_noLayout : (c : Cst) → c.wf = true → containsNL c.flatten = fals
       cases hpr : r.parse with
       | error err => rw [hpr] at hp; cases hp
       | ok re => rw [hpr] at hp; injection hp with hp; subst hp; exact ⟨noLayout_nil, noLayout_nil⟩
+  | .ite c1 g1 c c2 g2 c3 g3 t c4 g4 c5 g5 e, _, _, ex, hp => by
+    simp only [Cst.parse] at hp
+    cases hpt : t.parse with
+    | error err => rw [hpt] at hp; cases hp
+    | ok te =>
+      rw [hpt] at hp
+      cases hpe : e.parse with
+      | error err => rw [hpe] at hp; cases hp
+      | ok ee =>
+        rw [hpe] at hp
+        cases hpc : c.parse with
+        | error err => rw [hpc] at hp; cases hp
+        | ok ce => rw [hpc] at hp; injection hp with hp; subst hp; exact ⟨noLayout_nil, noLayout_nil⟩
+  | .has e c1 g1 c2 g2 attrs, _, _, ex, hp => by
+    simp only [Cst.parse] at hp
+    cases hpe : e.parse with
+    | error err => rw [hpe] at hp; cases hp
+    | ok ee => rw [hpe] at hp; injection hp with hp; subst hp; exact ⟨noLayout_nil, noLayout_nil⟩
 theorem items_noLayout : (its : Items) → ∀ (m : Mode) (cg : Text) (st st' : SeqSt), its.wf m cg = true →
     containsNL (its.flatten ++ cg) = false → its.parseSeq m st = .ok st' →
     allNoLayout st.items ∧ noLayout st.before → allNoLayout st'.items ∧ noLayout st'.before
@@ -431,6 +461,8 @@ theorem noLayoutE_effAfter {e : Expr} (h : e.noLayoutE) : noLayout (e.effAfter f
   | lam n c g k bd b a => exact h.2
   | un o e g bt b a => exact h.2
   | bin o l r x y b a => exact h.2
+  | ite c t e cg aic aig btc btg atc tg bec beg aec eg b a => exact h.2
+  | has e ats lg rg bq aq b a => exact h.2
 
 theorem ok_effAfter {e : Expr} (h : e.ok) : TrivOk (e.effAfter false) := by
   cases e with
@@ -449,6 +481,8 @@ theorem ok_effAfter {e : Expr} (h : e.ok) : TrivOk (e.effAfter false) := by
   | lam n c g k bd b a => exact h.2.2.2.2
   | un o e g bt b a => exact h.2.2.2.2
   | bin o l r x y b a => exact h.2.2.2.2
+  | ite c t e cg aic aig btc btg atc tg bec beg aec eg b a => exact h.2.2.2.2.2.2.2.2.2
+  | has e ats lg rg bq aq b a => exact h.2.2.2.2.2.2
 
 theorem allClosed_of_noLayout : ∀ {es : List Expr}, allOk es → allNoLayout es → allClosed es
   | [], _, _ => trivial
@@ -470,6 +504,8 @@ def Expr.flatClosed : Expr → Prop
   | .lam _ _ _ _ body _ _ => body.flatClosed
   | .un _ e _ _ _ _ => e.flatClosed
   | .bin _ l r _ _ _ _ => l.flatClosed ∧ r.flatClosed
+  | .ite c t e _ _ _ _ _ _ _ _ _ _ _ _ _ => c.flatClosed ∧ t.flatClosed ∧ e.flatClosed
+  | .has e _ _ _ _ _ _ _ => e.flatClosed
 def allFlatClosed : List Expr → Prop
   | [] => True
   | e :: rest => e.flatClosed ∧ allFlatClosed rest
@@ -668,6 +704,30 @@ theorem cst_flat : (c : Cst) → c.wf = true → ∀ (e : Expr), c.parse = .ok e
       | ok re =>
         rw [hpr] at hp; injection hp with hp; subst hp
         exact ⟨cst_flat l hwf.1.1.1.1.1.1.1 le hpl, cst_flat r hwf.2 re hpr⟩
+  | .ite c1 g1 c c2 g2 c3 g3 t c4 g4 c5 g5 e, hwf, ex, hp => by
+    obtain ⟨⟨h1, h2, h3, h4, h5⟩, ⟨hcw, htw, hew⟩, _⟩ := ite_wf hwf
+    subst h1; subst h2; subst h3; subst h4; subst h5
+    simp only [Cst.parse] at hp
+    cases hpt : t.parse with
+    | error err => rw [hpt] at hp; cases hp
+    | ok te =>
+      rw [hpt] at hp
+      cases hpe : e.parse with
+      | error err => rw [hpe] at hp; cases hp
+      | ok ee =>
+        rw [hpe] at hp
+        cases hpc : c.parse with
+        | error err => rw [hpc] at hp; cases hp
+        | ok ce =>
+          rw [hpc] at hp; injection hp with hp; subst hp
+          rw [iteFromCst_nil]
+          exact ⟨cst_flat c hcw ce hpc, cst_flat t htw te hpt, cst_flat e hew ee hpe⟩
+  | .has e c1 g1 c2 g2 attrs, hwf, ex, hp => by
+    obtain ⟨_, hew, _⟩ := has_wf hwf
+    simp only [Cst.parse] at hp
+    cases hpe : e.parse with
+    | error err => rw [hpe] at hp; cases hp
+    | ok ee => rw [hpe] at hp; injection hp with hp; subst hp; exact cst_flat e hew ee hpe
 theorem items_flat : (its : Items) → ∀ (m : Mode) (cg : Text) (st st' : SeqSt), its.wf m cg = true →
     its.parseSeq m st = .ok st' → allFlatClosed st.items → allFlatClosed st'.items
   | .nil, m, cg, st, st', _, hp, h => by
@@ -762,6 +822,10 @@ theorem inlineClean_of_flat : (e : Expr) → e.beforeFlatB = true → e.flatClos
   | .bin _ l r ogl rgl _ _, h, hf => by
     simp only [Expr.beforeFlatB, Bool.and_eq_true, decide_eq_true_eq] at h
     exact ⟨h.1.1.1, h.1.1.2, inlineClean_of_flat l h.1.2 hf.1, inlineClean_of_flat r h.2 hf.2⟩
+  | .ite c t e _ _ _ _ _ _ _ _ _ _ _ _ _, h, hf => by
+    simp only [Expr.beforeFlatB, Bool.and_eq_true] at h
+    exact ⟨inlineClean_of_flat c h.1.1 hf.1, inlineClean_of_flat t h.1.2 hf.2.1, inlineClean_of_flat e h.2 hf.2.2⟩
+  | .has e _ _ _ _ _ _ _, h, hf => inlineClean_of_flat e h hf
 theorem allInlineClean_of_flat : (es : List Expr) → allBeforeFlatB es = true → allFlatClosed es → allInlineClean es
   | [], _, _ => trivial
   | e :: rest, h, hf => by
